@@ -298,6 +298,77 @@ Example ex_file_start :
   file_start 96 (NFile (mkFile tiny_guid 0 170 7 8 28 248 28 24 None) (sub 72 28 tiny_image) []) = 120.
 Proof. vm_compute. reflexivity. Qed.
 
+(* ---- create-fv (Model/CreateFv.v): the volume it builds, the padding it splits ---- *)
+
+From Fiano Require Import Model.CreateFv Proofs.CreateFvProofs.
+
+(* create-fv with a size of whole 4 KiB blocks (the operation as repaired by
+   fixes/C02-createfv-whole-blocks.diff; on these sizes the pinned code is the same function,
+   C02_create_fv_agree): the buffer handed to the tree has the requested size, and after Assemble
+   has rebuilt the volume (header, name file, erased space; save always does) the result still has
+   exactly that size and the independent reader accepts it - signature, header checksum,
+   length = block map = bytes present, the name file with valid checksums, erased free space.
+   Erase polarity 0xFF: the new volume's attributes say so, any other polarity makes save fail. *)
+Theorem C02_create_fv_valid : forall dec d ffs3 size name fvoff h vb h' b,
+  0 < size -> size mod 4096 = 0 -> size < 2 ^ 44 -> zlen name = 16 -> bytes_ok name = true ->
+  create_fv 255 size name fvoff = Ok (h, vb) ->
+  asm_vol 255 ffs3 h vb [] = Ok (h', b) ->
+  zlen vb = size /\ zlen b = size /\ v_length h' = size /\ valid_fv dec (S d) true b = true.
+Proof. exact create_fv_valid_stmt. Qed.
+Print Assumptions C02_create_fv_valid.
+
+Theorem C02_create_fv_agree : forall pol size name fvoff, 0 < size -> size mod 4096 = 0 ->
+  create_fv pol size name fvoff = create_fv_pinned pol size name fvoff.
+Proof. exact create_fv_agree. Qed.
+Print Assumptions C02_create_fv_agree.
+
+(* the padding that holds [off, off + size) is replaced by (head padding,) new volume (, tail
+   padding): the elements of the region still add up to the same number of bytes, for the pinned
+   and for the repaired operation and for every size *)
+Theorem C02_create_fv_same_size : forall fixed pol elems length off size name elems',
+  0 <= size -> zlen name = 16 ->
+  create_fv_region fixed pol elems length off size name = Ok elems' ->
+  elems_len elems' = elems_len elems.
+Proof. exact create_fv_region_same_size. Qed.
+Print Assumptions C02_create_fv_same_size.
+
+(* the code at the pinned commit takes any size: for 4104 bytes (one block and 8 bytes) it builds
+   the volume, Assemble rebuilds it, and the reader REJECTS the result - Length 4104 next to a
+   block map of 1 x 4096 (known finding, fixes/C02-createfv-whole-blocks.diff) *)
+Theorem C02_create_fv_pinned_refuted : exists size h vb h' b,
+  size mod 4096 <> 0 /\
+  create_fv_pinned 255 size cfv_witness_name 0 = Ok (h, vb) /\
+  asm_vol 255 false h vb [] = Ok (h', b) /\ zlen b = size /\
+  valid_fv (fun _ _ => None) 3 true b = false.
+Proof. exact create_fv_pinned_refuted. Qed.
+Print Assumptions C02_create_fv_pinned_refuted.
+
+(* ... and below 116 bytes (header 72 + name file 44) it does not return at all: the length of
+   the erased rest, Length - DataOffset in uint64, wraps and make() panics *)
+Theorem C02_create_fv_pinned_small_panics : forall pol size name fvoff,
+  pol = 255 \/ pol = 0 -> size < 116 -> create_fv_pinned pol size name fvoff = Panic 501.
+Proof. exact create_fv_pinned_small. Qed.
+Print Assumptions C02_create_fv_pinned_small_panics.
+
+(* the repaired operation answers both classes with an error (no output) *)
+Theorem C02_create_fv_refuses : forall pol size name fvoff, size = 0 \/ size mod 4096 <> 0 ->
+  create_fv pol size name fvoff = Err E_CFVSIZE.
+Proof. exact create_fv_refuses. Qed.
+Print Assumptions C02_create_fv_refuses.
+
+(* the hypotheses of C02_create_fv_valid are met by a concrete case, and the pipeline computes:
+   an 8 KiB volume, rebuilt by Assemble, accepted by the reader *)
+Example ex_create_fv_8k :
+  match create_fv 255 8192 cfv_witness_name 0 with
+  | Ok (h, vb) =>
+    match asm_vol 255 false h vb [] with
+    | Ok (_, b) => (zlen b =? 8192) && valid_fv (fun _ _ => None) 3 true b
+    | _ => false
+    end
+  | _ => false
+  end = true.
+Proof. vm_compute. reflexivity. Qed.
+
 (* ---------------------------------------------------------------------------------------- *)
 (* Kernel ties: the arithmetic kernels of pkg/uefi this property rests on, as TRANSCRIBED FROM
    THE GO SOURCE on every run (translator/Kernels.sh -> Gen/GoKernels.v), equal the functions of
